@@ -176,8 +176,13 @@ def judgeOp (c : Case) (k : Nat) (op : Op) (prev : Obs) (o : Obs) : List String 
               | .ok v => judgeFifo c k n v
               | .panic => [s!"C05@{k}"]
               | _ => [])
-        else []
-      | .flushFifo | .clearStepCount => if ff then chk "C19" k (decide (C19 pre op accs o.outcome)) else []
+        else
+          -- a burst that fails is still ONE burst (Thm.exec_prefix: what is attempted is a prefix of the plan)
+          -- and the failure is what the call returns
+          if onlyDataFaults o.journal then chk "C19" k (accs.length ≤ 1 && !o.outcome.isOk) else []
+      | .flushFifo | .clearStepCount =>
+        if ff then chk "C19" k (decide (C19 pre op accs o.outcome))
+        else if onlyDataFaults o.journal then chk "C19" k (accs.length ≤ 1 && !o.outcome.isOk) else []
       | .selfTest =>
         if ff then chk "C10" k (decide (C10 pre post c.pos c.neg accs o.outcome)) else []
       | .softReset => chk "C11" k (decide (C11 shPost accs o.outcome))
